@@ -292,6 +292,43 @@ def _bm_env_policy(ctx):
     return E0, pol0, sym(ctx, "env", E0), sym(ctx, "pi", pol0)
 
 
+def native_rollout_replay(which, det):
+    """R1: the real rollout_scan / rollout_while on a deterministic generic environment whose terminal / truncate predicates are NOT absorbing (pseudo-random functions of the
+    state), compared with a plain Python interpreter of the episode (first terminal-or-truncated state or the step cap), for several keys and caps."""
+    def replay(model):
+        from lvc import opaque
+        E0 = GenericEnv(Discrete(3))
+        pol0 = GenericPolicy(E0.action_space, E0.observation_space)
+        old = opaque.IGNORE_KEYS
+        opaque.IGNORE_KEYS = True      # collaborators ignore their keys: one deterministic MDP / policy, whatever key schedule the code under contract uses
+        try:
+            for seed in range(6):
+                key = jax.random.key(seed)
+                for cap in (1, 3, 7, 12):
+                    with jax.disable_jit():
+                        got = float(BM.rollout_scan(E0, pol0, key=key, deterministic=det, max_steps=cap)) if which == "scan" else float(BM.rollout_while(E0, pol0, key=key, deterministic=det, max_steps=cap))
+                        s, h = E0.initial(key=key), pol0.reset(key=key)
+                        tot, steps, done = 0.0, 0, False
+                        trace = []
+                        while not done and steps < cap:
+                            obs = E0.observation(s, key=key)
+                            h, a = pol0(h, obs) if det else pol0(h, obs, key=key)
+                            ns = E0.transition(s, a, key=key)
+                            r = float(E0.reward(s, a, ns, key=key))
+                            done = bool(E0.terminal(ns, key=key)) or bool(E0.truncate(ns))
+                            tot += r
+                            steps += 1
+                            trace.append((round(r, 4), done))
+                            s = ns
+                    if abs(got - tot) > 1e-4 * (1 + abs(tot)):
+                        return dict(reproduced=True, route=f"R1 (real rollout_{which} eagerly on a deterministic generic MDP with non-absorbing episode ends vs a Python interpreter of the episode)",
+                                    inputs=dict(initial_key_seed=seed, max_steps=cap, deterministic=det), observed=dict(returned=got, episode_return=tot, episode_steps=steps, per_step_reward_and_done=trace))
+            return dict(reproduced=False, note="24 (key, cap) combinations: the returned value is the undiscounted return of the episode up to its first terminal/truncated state or the cap")
+        finally:
+            opaque.IGNORE_KEYS = old
+    return replay
+
+
 def unit_rollout_scan(S):
     S.under_contract(F_SCAN)
     (M,) = symbolic_dims("M")
@@ -345,11 +382,12 @@ def unit_rollout_scan(S):
             holes = {c: v for c, v in holes.items() if str(c) != "hole_ka"}
         sp = run(ctx, live, env_in, pol_in, es, ps, hs["ko"], hs["ka"], hs["kt"], hs["kr"], hs["kd"])
         goal_live = sand(kit.arr_eq_at(newc[0], sp[0], ()), kit.arr_eq_at(newc[1], sp[1], ()), ir.seq(newc[2].scalar(), sp[2].scalar()), ir.seq(y, sp[3].scalar()))
-        S.prove(f"{tag}/live-step", ctx, ir.simplies(ir.snot(dn), goal_live), hyps=[j >= 0, j < Mz], holes=holes, function=F_SCAN,
+        rp = native_rollout_replay("scan", det)
+        S.prove(f"{tag}/live-step", ctx, ir.simplies(ir.snot(dn), goal_live), hyps=[j >= 0, j < Mz], holes=holes, function=F_SCAN, replay=rp,
                 what="while the episode is running: the policy acts on the state's observation, the env moves, the step's output is that transition's reward, "
                      "and done' = terminal | truncated of the successor")
         goal_dead = sand(kit.arr_eq_at(newc[0], es, ()), kit.arr_eq_at(newc[1], ps, ()), ir.seq(newc[2].scalar(), True), ir.seq(y, 0))
-        S.prove(f"{tag}/after-first-done-nothing-counts", ctx, ir.simplies(dn, goal_dead), hyps=[j >= 0, j < Mz], function=F_SCAN,
+        S.prove(f"{tag}/after-first-done-nothing-counts", ctx, ir.simplies(dn, goal_dead), hyps=[j >= 0, j < Mz], function=F_SCAN, replay=rp,
                 what="once done, it stays done (sticky), the state is frozen and every later step contributes reward 0: the episode ends at its first terminal/truncated state")
         init = rec.carry_sarrs(0)
         hs0, holes0 = kit.holes_for(ctx, {"k1": "env.initial", "k2": "pi.reset"}, kc)
